@@ -14,6 +14,12 @@ CHECKS = {
         "text": "For every transaction of the alphabet (add, add+delete, update, delete-only, schema add/remove field, empty) x ending (commit merge=False / default merge with MERGE_SMALL firing / optimize / CLEAR / custom merge / cancel / exception in with-block) x compound or loose segments, from every start state of the family (empty, 1-2 segments, with deletions, 5 small segments): a crash after every storage-layer mutation, with torn variants of every open file. Each materialised crash image must open, equal exactly the old or the new state (monotonically; old before commit() is entered, new after it returns, always old for cancel), be searchable, accept a new writer, and that writer's commit must leave no orphaned segment file, extra TOC or temp directory.",
         "note": "Trusted: the process-crash model (closed files, renames and deletes are durable in order; any write-record prefix of an open file may be lost), the canonical dump in mc/checks/c02.py. Power-loss reordering is outside the model.",
     },
+    "C04": {
+        "engine": "E3", "level": "model_checking",
+        "technique": "stateless schedule exploration of real writer threads under a cooperative scheduler with iterative preemption bounding (storage-call, lock and polling-sleep granularity), monitors at every step and an end-state oracle",
+        "text": "2-3 real writer threads race on one index (FileStorage with the real flock; RamStorage with its lock made visible to the scheduler) for every pair of endings {commit, cancel, exception in with-block, clean with-block}, with and without polling timeouts, with deletes and merging commits: every schedule with <=2 preemptions (3 writers: 1; thorough 3/2) is executed on the real code. Checked: at most one lock holder and no index-file mutation without the lock at every step; no deadlock/livelock; only LockError escapes writer(); final documents = fold of successful commits; generation advanced by exactly the number of successful commits; the index is writable afterwards.",
+        "note": "Trusted: the scheduler owns all nondeterminism that threads share through the directory (storage calls, locks, polling sleeps under a virtual clock); a determinism gate replays the default schedule twice. Cross-process flock is represented by flock between file descriptors of one process.",
+    },
     "C05": {
         "engine": "E1", "level": "exploration",
         "technique": "bounded-exhaustive enumeration of query trees x posting-list alignments x k x weighting models x block sizes x layouts, differential against the exhaustive ranking of the same searcher",
